@@ -190,11 +190,16 @@ def task_wide(t):
     _, si, ns, focus = t
     rep = run.Report()
     rec = sweep.Rec(rep)
-    npairs = 5
+    xw = t[0] == 'xwide'
+    npairs = 20 if xw else 5
     prs = [('x%d' % i, "x%dp" % i) for i in range(npairs)]
     decl = [v for p_ in prs for v in p_]
     m = S.new_bdd({v: i for i, v in enumerate(decl)})
-    subsets = [(i,) for i in range(npairs)] + list(itertools.combinations(range(npairs), 2))
+    if xw:
+        # twenty interleaved pairs: (pre)images over three pairs, some at levels >= 32
+        subsets = list(itertools.combinations((0, 1, 7, 15, 16, 17, 19), 3))
+    else:
+        subsets = [(i,) for i in range(npairs)] + list(itertools.combinations(range(npairs), 2))
     mine = sweep.shard(subsets, ns)[si]
     for P in mine:
         if focus is not None and sweep.norm(P) != sweep.norm(focus):
@@ -206,8 +211,14 @@ def task_wide(t):
         prim = tuple(prs[i][1] for i in P)
         if len(P) == 1:
             transs = U.all_functions(names)
-        else:
+        elif len(P) == 2:
             transs = sorted(set(family3of4(U, names)))[::4]
+        else:
+            transs = sweep.wide_functions(U, names)
+            eqs = U.full
+            for a_, b_ in zip(unpr, prim):
+                eqs &= U.full ^ U.var(a_) ^ U.var(b_)
+            transs = transs + [eqs, U.full ^ eqs]
         sets_pre = U.all_functions(unpr)
         for fa in (False, True):
             for ft in transs:
@@ -570,7 +581,7 @@ def task_three(t):
 
 
 TASKS = dict(one=task_one, t1=task_t1, t2=task_t2, t3=task_t3, three=task_three, mid=task_mid,
-             wide=task_wide)
+             wide=task_wide, xwide=task_wide)
 
 
 def dispatch(t):
@@ -586,6 +597,7 @@ def _adjacent_orders4():
 def plan(tier):
     ts = [('one', 0, None), ('one', 1, None)]
     ts += [('wide', si, 15, None) for si in range(15)]
+    ts += [('xwide', si, 7, None) for si in range(7)]
     for oi in range(6):
         for si in range(4 if tier == 'quick' else 2):
             ts.append(('mid', oi, si, 8 if tier == 'quick' else 2, None))
